@@ -32,17 +32,7 @@ Proof.
   rewrite H1. f_equal. auto.
 Qed.
 
-Lemma canon_blank_free n : blank_free n = true -> canon n = key n.
-Proof. intros H. unfold canon, key. f_equal. apply filter_all_true. exact H. Qed.
-
-Lemma same_id_key a b :
-  blank_free a = true -> blank_free b = true -> same_id a b = str_eqb (key a) (key b).
-Proof. intros Ha Hb. unfold same_id. now rewrite !canon_blank_free. Qed.
-
 Definition cnt {A} (P : A -> bool) (l : list A) : nat := length (filter P l).
-
-Lemma cnt_app {A} (P : A -> bool) a b : cnt P (a ++ b) = cnt P a + cnt P b.
-Proof. unfold cnt. now rewrite filter_app, app_length. Qed.
 
 Lemma cnt_cons {A} (P : A -> bool) x l : cnt P (x :: l) = (if P x then 1 else 0) + cnt P l.
 Proof. unfold cnt. simpl. destruct (P x); reflexivity. Qed.
@@ -54,10 +44,10 @@ Proof.
   destruct I as [->|I]; auto.
 Qed.
 
-Lemma cnt_all_false {A} (P : A -> bool) l : (forall x, In x l -> P x = false) -> cnt P l = 0.
+Lemma cnt_pos {A} (P : A -> bool) l x : In x l -> P x = true -> 1 <= cnt P l.
 Proof.
-  induction l as [|y l IH]; intros H; [reflexivity|]. rewrite cnt_cons, (H y) by now left.
-  apply IH. intros x I. apply H. now right.
+  intros I Px. destruct (cnt P l) eqn:E; [|lia].
+  pose proof (cnt_zero P l E x I). congruence.
 Qed.
 
 Lemma cnt_two {A} (P : A -> bool) l a b :
@@ -65,15 +55,44 @@ Lemma cnt_two {A} (P : A -> bool) l a b :
 Proof.
   induction l as [|y l IH]; simpl; intros Ia Ib N Pa Pb; [contradiction|].
   rewrite cnt_cons.
-  assert (one : forall c, In c l -> P c = true -> 1 <= cnt P l).
-  { clear. intros c I Pc. destruct (cnt P l) eqn:E; [|lia].
-    pose proof (cnt_zero P l E c I). congruence. }
   destruct Ia as [->|Ia], Ib as [->|Ib].
   - congruence.
-  - rewrite Pa. specialize (one b Ib Pb). lia.
-  - rewrite Pb. specialize (one a Ia Pa). lia.
+  - rewrite Pa. pose proof (cnt_pos P l b Ib Pb). lia.
+  - rewrite Pb. pose proof (cnt_pos P l a Ia Pa). lia.
   - specialize (IH Ia Ib N Pa Pb). lia.
 Qed.
+
+Lemma perm_eq_dec (a b : perm) : {a = b} + {a <> b}.
+Proof. decide equality. Defined.
+Lemma str_eq_dec (a b : str) : {a = b} + {a <> b}.
+Proof. apply list_eq_dec. apply Ascii.ascii_dec. Defined.
+Lemma tstmt_eq_dec (a b : tstmt) : {a = b} + {a <> b}.
+Proof. decide equality; try apply perm_eq_dec; try apply str_eq_dec; apply list_eq_dec; apply perm_eq_dec. Defined.
+Lemma sstmt_eq_dec (a b : sstmt) : {a = b} + {a <> b}.
+Proof.
+  decide equality; try apply perm_eq_dec; try apply str_eq_dec; try apply Bool.bool_dec;
+    try (apply list_eq_dec; first [apply perm_eq_dec | apply str_eq_dec | apply tstmt_eq_dec]).
+  decide equality.
+Defined.
+
+(* ------------------------------------------------------------------ keys *)
+
+Lemma is_space_lower_ch c : is_space (lower_ch c) = is_space c.
+Proof. destruct c as [[] [] [] [] [] [] [] []]; reflexivity. Qed.
+
+Lemma lower_filter_space n :
+  lower (filter (fun c => negb (is_space c)) n) = filter (fun c => negb (is_space c)) (lower n).
+Proof.
+  induction n as [|c n IH]; [reflexivity|]. simpl. rewrite is_space_lower_ch.
+  destruct (is_space c); simpl; [exact IH | now rewrite <- IH].
+Qed.
+
+(* names equal up to letter case are equal as attr_dict keys *)
+Lemma key_of_pkey a b : pkey a = pkey b -> key a = key b.
+Proof. unfold key, pkey. intros H. now rewrite !lower_filter_space, H. Qed.
+
+Lemma same_id_key a b : same_id a b = str_eqb (key a) (key b).
+Proof. reflexivity. Qed.
 
 (* ------------------------------------------------------------------ last_perm / last_for *)
 
@@ -97,61 +116,14 @@ Proof.
       left. split; auto. intros p [X|X]; [injection X as -> _; congruence | exact (H1 p X)].
 Qed.
 
-Lemma last_for_remove_other k k' D d :
-  k <> k' -> last_for k (remove_key k' D) d = last_for k D d.
-Proof.
-  intros N. revert d. induction D as [|[k2 p2] r IH]; intros d; simpl; auto.
-  destruct (str_eqb k' k2) eqn:E; simpl.
-  - apply str_eqb_eq in E. subst k2.
-    assert (str_eqb k k' = false) as -> by now apply str_eqb_neq. apply IH.
-  - apply IH.
-Qed.
-
-Definition remove_keys (l : list ent) (D : list (str * perm)) : list (str * perm) :=
-  fold_left (fun d x => remove_key (key (e_name x)) d) l D.
-
-Lemma last_for_remove_keys k l D d :
-  (forall x, In x l -> key (e_name x) <> k) -> last_for k (remove_keys l D) d = last_for k D d.
-Proof.
-  revert D. induction l as [|x l IH]; intros D H; simpl; auto.
-  unfold remove_keys in *. simpl. rewrite IH by (intros y I; apply H; now right).
-  apply last_for_remove_other. intros E. apply (H x); [now left | now symmetry].
-Qed.
-
 Lemma apply_attrs_in e' items D :
   In e' (apply_attrs items D) ->
-  exists l1 e l2, items = l1 ++ e :: l2 /\
-    e' = set_perm e (last_for (key (e_name e)) (remove_keys l1 D) (e_perm e)).
-Proof.
-  revert D. induction items as [|x r IH]; intros D I; simpl in I; [contradiction|].
-  destruct I as [<-|I].
-  - exists [], x, r. split; auto.
-  - apply IH in I as (l1 & e & l2 & -> & ->). exists (x :: l1), e, l2. split; auto.
-Qed.
+  exists e, In e items /\ e' = set_perm e (last_for (key (e_name e)) D (e_perm e)).
+Proof. unfold apply_attrs. rewrite in_map_iff. intros (e & <- & I). exists e. auto. Qed.
 
-Lemma apply_attrs_ident items D :
-  map (fun e => (e_kind e, e_owner e, e_name e)) (apply_attrs items D)
-  = map (fun e => (e_kind e, e_owner e, e_name e)) items.
-Proof. revert D. induction items as [|x r IH]; intros D; simpl; auto. now rewrite IH. Qed.
-
-(* ------------------------------------------------------------------ classes and counting *)
+(* ------------------------------------------------------------------ classes *)
 
 Definition modlevel (e : ent) : bool := klass (e_kind e) <? 6.
-
-Lemma of_class_cons c x l :
-  of_class c (x :: l) = if Nat.eqb (klass (e_kind x)) c then x :: of_class c l else of_class c l.
-Proof. reflexivity. Qed.
-
-Lemma cnt_ordered (P : ent -> bool) l :
-  cnt P (ordered l) = cnt (fun e => modlevel e && P e) l.
-Proof.
-  unfold ordered. rewrite !cnt_app.
-  induction l as [|x l IH].
-  - reflexivity.
-  - rewrite !of_class_cons, (cnt_cons (fun e => modlevel e && P e)). unfold modlevel at 1.
-    destruct (e_kind x); simpl Nat.eqb; simpl klass; simpl Nat.ltb; cbv iota;
-      rewrite ?cnt_cons; simpl andb; destruct (P x); lia.
-Qed.
 
 Lemma in_ordered e l : In e (ordered l) <-> In e l /\ modlevel e = true.
 Proof.
@@ -162,25 +134,7 @@ Proof.
     destruct (klass (e_kind e)) as [|[|[|[|[|[|n]]]]]] eqn:E; try lia; simpl; tauto.
 Qed.
 
-Definition has_key (k : str) (e : ent) : bool := str_eqb k (key (e_name e)).
-
-Lemma cnt_ident_ext (P : ent -> bool) a b :
-  (forall x y, e_kind x = e_kind y -> e_name x = e_name y -> P x = P y) ->
-  map (fun e => (e_kind e, e_owner e, e_name e)) a = map (fun e => (e_kind e, e_owner e, e_name e)) b ->
-  cnt P a = cnt P b.
-Proof.
-  intros HP. revert b. induction a as [|x a IH]; intros [|y b] E; simpl in E; try discriminate; auto.
-  injection E as E1 E2 E3 E. rewrite !cnt_cons, (IH b E), (HP x y E1 E3). reflexivity.
-Qed.
-
 (* ------------------------------------------------------------------ the parsing loop *)
-
-Fixpoint cur_after (cur : perm) (pre : list sstmt) : perm :=
-  match pre with
-  | [] => cur
-  | SDefault p :: r => cur_after p r
-  | _ :: r => cur_after cur r
-  end.
 
 (* attributes FORD looks at on the declaration *)
 Definition ford_attrs (st : sstmt) : list perm :=
@@ -203,6 +157,14 @@ Definition decl_name (st : sstmt) : option (ekind * str) :=
   | _ => None
   end.
 
+(* the permission an entity has when the loop is over: its last recognised attribute, else the
+   default in force at the end of the scope *)
+Definition base_perm (ats : list perm) (fin : perm) : perm :=
+  match ats with [] => fin | a :: l => last_perm l a end.
+
+Lemma decl_perm_base ats cur rest : decl_perm ats cur rest = base_perm ats (cur_after cur rest).
+Proof. destruct ats; reflexivity. Qed.
+
 Lemma tchildren_kinds owner tb e :
   In e (tchildren owner tb) -> e_kind e = KComp \/ e_kind e = KBind.
 Proof.
@@ -216,33 +178,33 @@ Proof. intros H. apply tchildren_kinds in H as [H|H]; unfold top_level; now rewr
 Lemma tchildren_not_modlevel owner tb e : In e (tchildren owner tb) -> modlevel e = false.
 Proof. intros H. apply tchildren_kinds in H as [H|H]; unfold modlevel; now rewrite H. Qed.
 
-(* a module-level entity of the scan comes from a declaration statement, with the default then in force *)
+(* a module-level entity of the scan comes from a declaration statement *)
 Lemma scan_modlevel_in e cur body :
   In e (scan_ents cur body) -> modlevel e = true ->
-  exists pre st post k n, body = pre ++ st :: post /\ decl_name st = Some (k, n) /\
-    e = mk_ent k [] n (last_perm (ford_attrs st) (cur_after cur pre)).
+  exists st k n, In st body /\ decl_name st = Some (k, n) /\
+    e = mk_ent k [] n (base_perm (ford_attrs st) (cur_after cur body)).
 Proof.
   revert cur. induction body as [|st r IH]; intros cur I M; simpl in I; [contradiction|].
-  assert (rec : forall cur', In e (scan_ents cur' r) -> cur_after cur [st] = cur' ->
-     exists pre st0 post k n, st :: r = pre ++ st0 :: post /\ decl_name st0 = Some (k, n) /\
-       e = mk_ent k [] n (last_perm (ford_attrs st0) (cur_after cur pre))).
-  { intros cur' I' E. destruct (IH cur' I' M) as (pre & st0 & post & k & n & -> & Hd & ->).
-    exists (st :: pre), st0, post, k, n. repeat split; auto.
-    simpl in E. simpl. destruct st; simpl in *; subst; reflexivity. }
+  assert (rec : forall cur', In e (scan_ents cur' r) -> cur_after cur (st :: r) = cur_after cur' r ->
+     exists st0 k n, In st0 (st :: r) /\ decl_name st0 = Some (k, n) /\
+       e = mk_ent k [] n (base_perm (ford_attrs st0) (cur_after cur (st :: r)))).
+  { intros cur' I' E. destruct (IH cur' I' M) as (st0 & k & n & Hi & Hd & ->).
+    exists st0, k, n. repeat split; auto. now right. now rewrite E. }
   destruct st as [p|p ns|pa n ats|n ats tb|k n| |f n]; simpl in I.
   - apply (rec p); auto.
   - apply (rec cur); auto.
   - destruct I as [<-|I]; [|apply (rec cur); auto].
-    exists [], (SVar pa n ats), r, (if pa then KParam else KVar), n. repeat split; auto.
+    exists (SVar pa n ats), (if pa then KParam else KVar), n. repeat split; simpl; auto.
+    now rewrite decl_perm_base.
   - destruct I as [<-|I].
-    + exists [], (SType n ats tb), r, KType, n. repeat split; auto.
+    + exists (SType n ats tb), KType, n. repeat split; simpl; auto. now rewrite decl_perm_base.
     + apply in_app_iff in I as [I|I]; [|apply (rec cur); auto].
       apply tchildren_not_modlevel in I. congruence.
   - destruct I as [<-|I]; [|apply (rec cur); auto].
-    exists [], (SIface k n), r, (ekind_of_ikind k), n. repeat split; auto.
+    exists (SIface k n), (ekind_of_ikind k), n. repeat split; simpl; auto.
   - apply (rec cur); auto.
   - destruct I as [<-|I]; [|apply (rec cur); auto].
-    exists [], (SProc f n), r, (if f then KFun else KSub), n. repeat split; auto.
+    exists (SProc f n), (if f then KFun else KSub), n. repeat split; simpl; auto.
 Qed.
 
 Lemma scan_children_in e cur body :
@@ -267,26 +229,26 @@ Proof.
     injection H as <- <-; [destruct pa| |destruct ik|destruct f]; split; (reflexivity || discriminate).
 Qed.
 
-(* counting the declarations of a name = counting the module-level entities with that key *)
 Lemma declares_decl_name n st :
   declares n st = match decl_name st with Some (_, m) => str_eqb (key n) (key m) | None => false end.
 Proof. destruct st; reflexivity. Qed.
 
-Lemma cnt_scan n cur body :
-  cnt (fun e => modlevel e && has_key (key n) e) (scan_ents cur body) = count_decls n body.
+Lemma decl_name_type st n : decl_name st = Some (KType, n) -> carries_attrs st = true.
 Proof.
-  unfold count_decls. fold (cnt (declares n) body).
-  revert cur. induction body as [|st r IH]; intros cur; [reflexivity|].
-  rewrite (cnt_cons (declares n)).
-  destruct st as [p|p ns|pa m ats|m ats tb|k m| |f m]; simpl scan_ents; simpl declares;
-    rewrite ?cnt_cons, ?cnt_app, ?IH; try reflexivity.
-  - unfold modlevel, has_key. simpl e_kind. simpl e_name. destruct pa; reflexivity.
-  - rewrite (cnt_all_false _ (tchildren m tb)).
-    2:{ intros x Ix. now rewrite (tchildren_not_modlevel _ _ _ Ix). }
-    unfold modlevel, has_key. simpl. reflexivity.
-  - unfold modlevel, has_key. simpl e_kind. simpl e_name. destruct k; reflexivity.
-  - unfold modlevel, has_key. simpl e_kind. simpl e_name. destruct f; reflexivity.
+  destruct st as [| |pa m ats|m ats tb|k m| |f m]; simpl; intros H; try discriminate; auto.
+  - destruct k; discriminate.
+  - destruct f; discriminate.
 Qed.
+
+Lemma decl_name_carries st k n :
+  decl_name st = Some (k, n) -> kind_carries k = true -> carries_attrs st = true.
+Proof.
+  destruct st as [| |pa m ats|m ats tb|ik m| |f m]; simpl; intros H C; try discriminate; auto;
+    injection H as <- _; [destruct ik|destruct f]; discriminate.
+Qed.
+
+Lemma decl_attrs_carries st p : In p (decl_attrs st) -> carries_attrs st = true.
+Proof. destruct st; simpl; auto; contradiction. Qed.
 
 (* ------------------------------------------------------------------ constructor step *)
 
@@ -294,10 +256,10 @@ Definition ident (e : ent) := (e_kind e, e_owner e, e_name e).
 
 Lemma set_first_in k p es e' :
   In e' (set_first k p es) ->
-  In e' es \/ exists e, In e es /\ in_all_procs e = true /\ k = key (e_name e) /\ e' = set_perm e p.
+  In e' es \/ exists e, In e es /\ in_all_procs e = true /\ k = pkey (e_name e) /\ e' = set_perm e p.
 Proof.
   induction es as [|x r IH]; simpl; intros I; [contradiction|].
-  destruct (in_all_procs x && str_eqb k (key (e_name x))) eqn:E.
+  destruct (in_all_procs x && str_eqb k (pkey (e_name x))) eqn:E.
   - destruct I as [<-|I]; auto.
     apply andb_true_iff in E as [E1 E2]. apply str_eqb_eq in E2.
     right. exists x. auto.
@@ -307,7 +269,7 @@ Qed.
 
 Lemma set_last_in k p es e' :
   In e' (set_last k p es) ->
-  In e' es \/ exists e, In e es /\ in_all_procs e = true /\ k = key (e_name e) /\ e' = set_perm e p.
+  In e' es \/ exists e, In e es /\ in_all_procs e = true /\ k = pkey (e_name e) /\ e' = set_perm e p.
 Proof.
   unfold set_last. rewrite <- in_rev. intros I. apply set_first_in in I as [I|(e & I & H)].
   - left. now apply in_rev.
@@ -315,23 +277,23 @@ Proof.
 Qed.
 
 (* every entity after the constructor step is an entity before it, possibly with the permission of a
-   type that has the same key *)
+   type of the same name *)
 Lemma fix_constructors_in es e' :
   In e' (fix_constructors es) ->
   exists e, In e es /\ ident e' = ident e /\
     (e' = e \/ exists t, In t es /\ klass (e_kind t) = 2 /\ in_all_procs e = true /\
-                         key (e_name t) = key (e_name e) /\ e_perm e' = e_perm t).
+                         pkey (e_name t) = pkey (e_name e) /\ e_perm e' = e_perm t).
 Proof.
   unfold fix_constructors.
   assert (G : forall ts acc,
     (forall t, In t ts -> In t es /\ klass (e_kind t) = 2) ->
     (forall x, In x acc -> exists e, In e es /\ ident x = ident e /\
        (x = e \/ exists t, In t es /\ klass (e_kind t) = 2 /\ in_all_procs e = true /\
-                           key (e_name t) = key (e_name e) /\ e_perm x = e_perm t)) ->
-    forall x, In x (fold_left (fun acc t => set_last (key (e_name t)) (e_perm t) acc) ts acc) ->
+                           pkey (e_name t) = pkey (e_name e) /\ e_perm x = e_perm t)) ->
+    forall x, In x (fold_left (fun acc t => set_last (pkey (e_name t)) (e_perm t) acc) ts acc) ->
       exists e, In e es /\ ident x = ident e /\
        (x = e \/ exists t, In t es /\ klass (e_kind t) = 2 /\ in_all_procs e = true /\
-                           key (e_name t) = key (e_name e) /\ e_perm x = e_perm t)).
+                           pkey (e_name t) = pkey (e_name e) /\ e_perm x = e_perm t)).
   { induction ts as [|t ts IH]; intros acc Hts Hacc x I; simpl in I; [now apply Hacc|].
     apply IH in I; auto.
     - intros t' It'. apply Hts. now right.
@@ -350,27 +312,23 @@ Qed.
 (* ------------------------------------------------------------------ explicit specifications *)
 
 Lemma existsb_same_id n ns :
-  blank_free n = true -> forallb blank_free ns = true ->
   existsb (same_id n) ns = true <-> exists m, In m ns /\ key m = key n.
 Proof.
-  intros Hn Hns. rewrite existsb_exists. rewrite forallb_forall in Hns. split.
-  - intros (m & Im & E). exists m. split; auto. rewrite same_id_key in E; auto.
+  rewrite existsb_exists. split.
+  - intros (m & Im & E). exists m. split; auto. rewrite same_id_key in E.
     apply str_eqb_eq in E. auto.
-  - intros (m & Im & E). exists m. split; auto. rewrite same_id_key; auto.
-    rewrite E. apply str_eqb_refl.
+  - intros (m & Im & E). exists m. split; auto. rewrite same_id_key, E. apply str_eqb_refl.
 Qed.
 
 (* the Spec's explicit keywords of n are exactly: the attr_dict entries under n's key, and the access
-   attributes on declarations of n — provided no identifier is written with blanks *)
+   attributes on declarations of n *)
 Lemma explicit_specs_in n body p :
-  blank_free n = true -> names_blank_free body = true ->
   In p (explicit_specs n body) <->
   In (key n, p) (scan_attrs body) \/ exists st, In st body /\ declares n st = true /\ In p (decl_attrs st).
 Proof.
-  intros Hn. induction body as [|st r IH]; intros Hb.
+  induction body as [|st r IH].
   - simpl. split; [contradiction|]. intros [[]|(st & [] & _)].
-  - simpl in Hb. apply andb_true_iff in Hb as [Hst Hr]. specialize (IH Hr).
-    assert (skip : explicit_specs n (st :: r) = explicit_specs n r -> scan_attrs (st :: r) = scan_attrs r ->
+  - assert (skip : explicit_specs n (st :: r) = explicit_specs n r -> scan_attrs (st :: r) = scan_attrs r ->
                    (declares n st = true -> decl_attrs st = []) ->
       (In p (explicit_specs n (st :: r)) <->
        In (key n, p) (scan_attrs (st :: r)) \/
@@ -382,8 +340,8 @@ Proof.
         + right. exists st0. auto. }
     destruct st as [q|q ns|pa m ats|m ats tb|k m| |f m]; try (apply skip; auto; fail).
     + (* SAccess *)
-      simpl explicit_specs. simpl scan_attrs. rewrite !in_app_iff, IH. simpl in Hst.
-      pose proof (existsb_same_id n ns Hn Hst) as X.
+      simpl explicit_specs. simpl scan_attrs. rewrite !in_app_iff, IH.
+      pose proof (existsb_same_id n ns) as X.
       split.
       * intros [H|[H|(st0 & H1 & H2)]].
         -- destruct (existsb (same_id n) ns) eqn:E; [|contradiction].
@@ -398,8 +356,7 @@ Proof.
         -- discriminate.
         -- right. right. exists st0. auto.
     + (* SVar *)
-      simpl explicit_specs. simpl scan_attrs. rewrite in_app_iff, IH. simpl in Hst.
-      rewrite (same_id_key n m Hn Hst).
+      simpl explicit_specs. simpl scan_attrs. rewrite in_app_iff, IH, same_id_key.
       split.
       * intros [H|[H|(st0 & H1 & H2)]]; auto.
         -- destruct (str_eqb (key n) (key m)) eqn:E; [|contradiction].
@@ -409,8 +366,7 @@ Proof.
         -- simpl in H2, H3. rewrite H2. auto.
         -- right. right. exists st0. auto.
     + (* SType *)
-      simpl explicit_specs. simpl scan_attrs. rewrite in_app_iff, IH. simpl in Hst.
-      rewrite (same_id_key n m Hn Hst).
+      simpl explicit_specs. simpl scan_attrs. rewrite in_app_iff, IH, same_id_key.
       split.
       * intros [H|[H|(st0 & H1 & H2)]]; auto.
         -- destruct (str_eqb (key n) (key m)) eqn:E; [|contradiction].
@@ -421,10 +377,7 @@ Proof.
         -- right. right. exists st0. auto.
 Qed.
 
-(* ------------------------------------------------------------------ the default in force *)
-
-Lemma cur_after_app c a b : cur_after c (a ++ b) = cur_after (cur_after c a) b.
-Proof. revert c. induction a as [|st a IH]; intros c; simpl; auto. destruct st; apply IH. Qed.
+(* ------------------------------------------------------------------ the default at the end of the scope *)
 
 Lemma existsb_default_false pre : existsb is_default pre = false -> forall c, cur_after c pre = c.
 Proof.
@@ -458,48 +411,15 @@ Proof.
   rewrite (no_default_no_private r Z1). destruct p; try reflexivity; discriminate.
 Qed.
 
-Lemma count_defaults_app a b : count_defaults (a ++ b) = count_defaults a + count_defaults b.
-Proof. unfold count_defaults. now rewrite filter_app, app_length. Qed.
-
-Lemma no_bare_protected_app a b :
-  no_bare_protected (a ++ b) = no_bare_protected a && no_bare_protected b.
-Proof. unfold no_bare_protected. apply forallb_app. Qed.
-
-(* if no list-less access statement follows the declaration, the default then in force is the
+(* a list-less access statement reaches the whole scope: the permission inherited in the end is the
    module's default accessibility *)
-Lemma cur_is_default pre st post :
-  defaults_valid (pre ++ st :: post) = true -> is_default st = false ->
-  existsb is_default post = false ->
-  cur_after Public pre = default_access (pre ++ st :: post).
+Lemma final_default body :
+  defaults_valid body = true -> cur_after Public body = default_access body.
 Proof.
-  intros V Hst Hpost. unfold defaults_valid in V. apply andb_true_iff in V as [V1 V2].
-  apply Nat.leb_le in V1. rewrite count_defaults_app in V1. rewrite no_bare_protected_app in V2.
-  apply andb_true_iff in V2 as [V2 _].
-  rewrite cur_after_valid; auto; [|lia].
-  unfold default_access. rewrite existsb_app. simpl.
-  rewrite (no_default_no_private post Hpost), orb_false_r.
-  assert (is_bare_private st = false) as -> by (destruct st as [[]| | | | | |]; auto; discriminate).
-  rewrite orb_false_r.
-  destruct (existsb is_default pre) eqn:E; auto.
-  now rewrite (no_default_no_private pre E).
-Qed.
-
-Lemma late_default_split n pre st post :
-  (forall x, In x pre -> declares n x = false) -> declares n st = true ->
-  late_default n (pre ++ st :: post) = existsb is_default post.
-Proof.
-  induction pre as [|y pre IH]; intros H Hst; simpl.
-  - now rewrite Hst.
-  - rewrite (H y) by now left. apply IH; auto. intros x I. apply H. now right.
-Qed.
-
-Lemma count_decls_split n pre st post :
-  declares n st = true -> count_decls n (pre ++ st :: post) <= 1 ->
-  (forall x, In x pre -> declares n x = false) /\ (forall x, In x post -> declares n x = false).
-Proof.
-  unfold count_decls. fold (cnt (declares n) (pre ++ st :: post)).
-  rewrite cnt_app, cnt_cons. intros -> H.
-  split; apply cnt_zero; lia.
+  unfold defaults_valid. intros V. apply andb_true_iff in V as [V1 V2]. apply Nat.leb_le in V1.
+  rewrite (cur_after_valid body Public V1 V2).
+  destruct (existsb is_default body) eqn:E; auto.
+  unfold default_access. now rewrite (no_default_no_private body E).
 Qed.
 
 (* ------------------------------------------------------------------ the value FORD computes *)
@@ -507,68 +427,55 @@ Qed.
 Definition top_of (sk : scope_kind) (body : list sstmt) : list ent :=
   fix_constructors (apply_attrs (ordered (scan_ents (initial_perm sk) body)) (scan_attrs body)).
 
-Lemma cnt_has_key_ordered sk body n :
-  cnt (has_key (key n)) (ordered (scan_ents (initial_perm sk) body)) = count_decls n body.
-Proof. rewrite cnt_ordered. apply cnt_scan. Qed.
-
-Lemma cnt_has_key_top sk body n :
-  cnt (has_key (key n)) (apply_attrs (ordered (scan_ents (initial_perm sk) body)) (scan_attrs body))
-  = count_decls n body.
+(* entities before the constructor step *)
+Lemma attrs_in sk body e :
+  In e (apply_attrs (ordered (scan_ents (initial_perm sk) body)) (scan_attrs body)) ->
+  exists st, In st body /\ decl_name st = Some (e_kind e, e_name e) /\ e_owner e = [] /\
+    e_perm e = last_for (key (e_name e)) (scan_attrs body)
+                 (base_perm (ford_attrs st) (cur_after (initial_perm sk) body)).
 Proof.
-  rewrite (cnt_ident_ext (has_key (key n)) _ (ordered (scan_ents (initial_perm sk) body))).
-  - rewrite cnt_ordered. apply cnt_scan.
-  - intros x y _ E. unfold has_key. now rewrite E.
-  - apply apply_attrs_ident.
+  intros I. apply apply_attrs_in in I as (e0 & I0 & ->).
+  apply in_ordered in I0 as [I0 M].
+  destruct (scan_modlevel_in _ _ _ I0 M) as (st & k & n & Is & Hd & ->).
+  exists st. simpl. auto.
 Qed.
 
 Lemma top_modlevel sk body e : In e (top_of sk body) -> modlevel e = true.
 Proof.
   intros I. apply fix_constructors_in in I as (e1 & I1 & Eid & _).
-  apply apply_attrs_in in I1 as (l1 & e0 & l2 & Hsplit & ->).
-  assert (I0 : In e0 (ordered (scan_ents (initial_perm sk) body))) by (rewrite Hsplit; apply in_elt).
-  apply in_ordered in I0 as [_ M]. unfold ident in Eid. injection Eid as E1 _ _.
-  unfold modlevel in *. now rewrite E1.
+  apply attrs_in in I1 as (st & _ & Hd & _). apply decl_name_modlevel in Hd as [Hd _].
+  unfold ident in Eid. injection Eid as E1 _ _. unfold modlevel. now rewrite E1.
 Qed.
 
-(* For an identifier declared once: its permission is the last access attribute stored under its key,
-   else the last access keyword FORD recognises on the declaration, else the default in force at
-   the declaration. *)
+Lemma attr_twin_false k n body :
+  attr_twin k n body = false -> count_attr_decls n body <= (if kind_carries k then 1 else 0).
+Proof. unfold attr_twin. intros H. apply negb_false_iff in H. now apply Nat.leb_le. Qed.
+
+(* For an identifier no other attribute-carrying declaration shares: its permission is the last access
+   attribute stored under its key, else the last access keyword FORD recognises on the declaration,
+   else the default in force at the end of the scope. *)
 Lemma top_value sk body e :
-  In e (top_of sk body) -> declared_twice (e_name e) body = false ->
-  exists pre st post, body = pre ++ st :: post /\ decl_name st = Some (e_kind e, e_name e) /\
-    (forall x, In x pre -> declares (e_name e) x = false) /\
-    (forall x, In x post -> declares (e_name e) x = false) /\
+  In e (top_of sk body) -> attr_twin (e_kind e) (e_name e) body = false ->
+  exists st, In st body /\ decl_name st = Some (e_kind e, e_name e) /\
     e_perm e = last_for (key (e_name e)) (scan_attrs body)
-                 (last_perm (ford_attrs st) (cur_after (initial_perm sk) pre)).
+                 (base_perm (ford_attrs st) (cur_after (initial_perm sk) body)).
 Proof.
-  intros I U. unfold declared_twice in U. apply Nat.leb_gt in U.
-  pose proof (cnt_has_key_top sk body (e_name e)) as C.
+  intros I U. apply attr_twin_false in U.
   unfold top_of in I. apply fix_constructors_in in I as (e1 & I1 & Eid & Hcase).
   unfold ident in Eid. injection Eid as Ek Eo En.
   destruct Hcase as [->|(t & It & Kt & A & Ekey & _)].
-  2:{ exfalso. assert (2 <= count_decls (e_name e) body); [|lia]. rewrite <- C.
-      apply (cnt_two _ _ t e1); auto.
-      - intros ->. unfold in_all_procs in A. rewrite Kt in A. discriminate.
-      - unfold has_key. rewrite Ekey, En. apply str_eqb_refl.
-      - unfold has_key. rewrite En. apply str_eqb_refl. }
-  clear Ek Eo En C.
-  apply apply_attrs_in in I1 as (l1 & e0 & l2 & Hsplit & ->). simpl e_name in *. simpl e_kind. simpl e_perm.
-  pose proof (cnt_has_key_ordered sk body (e_name e0)) as C.
-  rewrite Hsplit in C.
-  assert (I0 : In e0 (ordered (scan_ents (initial_perm sk) body))) by (rewrite Hsplit; apply in_elt).
-  apply in_ordered in I0 as [I0 M].
-  destruct (scan_modlevel_in _ _ _ I0 M) as (pre & st & post & k & n & Hb & Hd & He0).
-  subst e0. simpl e_name in *. simpl e_kind. simpl e_perm.
-  assert (Hdecl : declares n st = true) by (rewrite declares_decl_name, Hd; apply str_eqb_refl).
-  rewrite Hb in U.
-  destruct (count_decls_split n pre st post Hdecl) as [Hpre Hpost]; [lia|].
-  exists pre, st, post. repeat split; auto.
-  rewrite last_for_remove_keys; auto.
-  intros x Ix E.
-  rewrite cnt_app, cnt_cons in C.
-  assert (Z : cnt (has_key (key n)) l1 = 0).
-  { unfold has_key at 2 in C. simpl e_name in C. rewrite str_eqb_refl in C. rewrite <- Hb in U. lia. }
-  pose proof (cnt_zero _ _ Z x Ix) as F. unfold has_key in F. rewrite E, str_eqb_refl in F. discriminate.
+  - apply attrs_in in I1 as (st & Is & Hd & _ & Hp). exists st. auto.
+  - exfalso.
+    apply attrs_in in It as (stt & Ist & Hdt & _).
+    assert (KT : e_kind t = KType) by (destruct (e_kind t); simpl in Kt; try discriminate; reflexivity).
+    rewrite KT in Hdt.
+    assert (NC : kind_carries (e_kind e) = false).
+    { rewrite Ek. unfold in_all_procs in A. destruct (e_kind e1); simpl in A; try discriminate; reflexivity. }
+    rewrite NC in U.
+    assert (1 <= count_attr_decls (e_name e) body); [|lia].
+    apply (cnt_pos _ body stt Ist).
+    rewrite (decl_name_type _ _ Hdt), declares_decl_name, Hdt, andb_true_r.
+    rewrite En, (key_of_pkey _ _ Ekey). apply str_eqb_refl.
 Qed.
 
 Lemma ford_perms_some sk body out :
@@ -587,7 +494,7 @@ Qed.
 Lemma scan_kinds cur body e : In e (scan_ents cur body) -> e_kind e <> KIfProc.
 Proof.
   intros I. destruct (modlevel e) eqn:M.
-  - destruct (scan_modlevel_in _ _ _ I M) as (pre & st & post & k & n & _ & Hd & ->).
+  - destruct (scan_modlevel_in _ _ _ I M) as (st & k & n & _ & Hd & ->).
     apply decl_name_modlevel in Hd. simpl. tauto.
   - destruct (scan_children_in _ _ _ I M) as (n & ats & tb & _ & Ic).
     apply tchildren_kinds in Ic as [-> | ->]; discriminate.
@@ -599,12 +506,13 @@ Lemma out_top_level sk body out e :
   ford_perms sk body = Some out -> In e out -> top_level e = true ->
   exists e1, In e1 (top_of sk body) /\ e_name e1 = e_name e /\ e_perm e1 = e_perm e /\
              is_variable (e_kind e1) = is_variable (e_kind e) /\
+             kind_carries (e_kind e1) = kind_carries (e_kind e) /\
              (e1 = e \/ (e_kind e = KIfProc /\ (e_kind e1 = KExplicit \/ e_kind e1 = KAbstract))).
 Proof.
   intros F I T. rewrite (ford_perms_some _ _ _ F) in I.
-  apply in_app_iff in I as [I|I]; [exists e; auto 6|].
+  apply in_app_iff in I as [I|I]; [exists e; auto 8|].
   apply in_app_iff in I as [I|I].
-  - apply ifprocs_in in I as (i & Ii & K & ->). exists i. simpl. repeat split; auto.
+  - apply ifprocs_in in I as (i & Ii & K & ->). exists i. simpl. repeat split; auto;
     destruct K as [-> | ->]; reflexivity.
   - unfold of_class in I. apply filter_In in I as [I K]. apply Nat.eqb_eq in K.
     pose proof (scan_kinds _ _ _ I). unfold top_level in T.
@@ -640,91 +548,86 @@ Qed.
 Lemma decl_attrs_ford st : ~ In Protected (decl_attrs st) -> ford_attrs st = decl_attrs st.
 Proof. destruct st; simpl; auto. apply filter_is_acc_id. Qed.
 
-Lemma region_zero body n :
-  region body n = 0 ->
-  late_default n body = false /\ protected_conflict n body = false /\
-  declared_twice n body = false /\ names_blank_free body = true.
+Lemma region_zero body k n :
+  region body k n = 0 -> protected_conflict n body = false /\ attr_twin k n body = false.
 Proof.
-  unfold region.
-  destruct (late_default n body), (protected_conflict n body), (declared_twice n body),
-    (names_blank_free body); simpl; intros H; try discriminate; auto.
+  unfold region. destruct (protected_conflict n body), (attr_twin k n body); simpl; intros H;
+    try discriminate; auto.
 Qed.
 
-Lemma names_blank_free_decl body st k n :
-  names_blank_free body = true -> In st body -> decl_name st = Some (k, n) -> blank_free n = true.
+Lemma base_perm_cases ats fin : (ats = [] /\ base_perm ats fin = fin) \/ In (base_perm ats fin) ats.
 Proof.
-  unfold names_blank_free. rewrite forallb_forall. intros H I D. specialize (H st I).
-  destruct st; simpl in D; try discriminate; injection D as _ <-; exact H.
+  destruct ats as [|a l]; [left; auto|]. right. simpl.
+  destruct (last_perm_cases l a) as [[-> ->]|I]; simpl; auto.
 Qed.
-
-Lemma decl_not_default st k n : decl_name st = Some (k, n) -> is_default st = false.
-Proof. destruct st; simpl; auto; discriminate. Qed.
 
 (* the permission FORD ends with is one of the explicit keywords of the identifier, or — when there is
-   none — the default in force at the declaration *)
+   none — the default in force at the end of the scope *)
 Lemma top_value_member body e :
   In e (top_of ScModule body) ->
-  declared_twice (e_name e) body = false -> names_blank_free body = true ->
+  attr_twin (e_kind e) (e_name e) body = false ->
   (e_kind e = KVar \/ ~ In Protected (explicit_specs (e_name e) body)) ->
-  exists pre st post, body = pre ++ st :: post /\ decl_name st = Some (e_kind e, e_name e) /\
-    (forall x, In x pre -> declares (e_name e) x = false) /\
-    (forall x, In x post -> declares (e_name e) x = false) /\
-    (In (e_perm e) (explicit_specs (e_name e) body) \/
-     (explicit_specs (e_name e) body = [] /\ e_perm e = cur_after Public pre)).
+  In (e_perm e) (explicit_specs (e_name e) body) \/
+  (explicit_specs (e_name e) body = [] /\ e_perm e = cur_after Public body).
 Proof.
-  intros I RD RB HK.
-  destruct (top_value ScModule body e I RD) as (pre & st & post & Hb & Hd & Hpre & Hpost & Hv).
-  exists pre, st, post. repeat split; auto.
+  intros I RD HK.
+  destruct (top_value ScModule body e I RD) as (st & Ist & Hd & Hv).
+  apply attr_twin_false in RD.
   set (n := e_name e) in *.
-  assert (Ist : In st body) by (rewrite Hb; apply in_elt).
-  assert (Bn : blank_free n = true) by exact (names_blank_free_decl _ _ _ _ RB Ist Hd).
   assert (Hdecl : declares n st = true) by (rewrite declares_decl_name, Hd; apply str_eqb_refl).
   pose proof (explicit_specs_in n body) as EX.
   assert (FA : ford_attrs st = decl_attrs st).
   { destruct HK as [HK|HK].
     - rewrite HK in Hd. destruct st as [| |pa m ats|m ats tb|k m| |f m]; simpl in Hd; try discriminate; auto.
-    - apply decl_attrs_ford. intros X. apply HK. apply (EX Protected Bn RB). right. exists st. auto. }
+    - apply decl_attrs_ford. intros X. apply HK. apply (EX Protected). right. exists st. auto. }
   rewrite FA in Hv. rewrite Hv. simpl initial_perm.
-  destruct (last_for_cases (key n) (scan_attrs body) (last_perm (decl_attrs st) (cur_after Public pre)))
+  destruct (last_for_cases (key n) (scan_attrs body) (base_perm (decl_attrs st) (cur_after Public body)))
     as [[Hno ->]|Hin].
-  - destruct (last_perm_cases (decl_attrs st) (cur_after Public pre)) as [[Hnil ->]|Hin].
+  - destruct (base_perm_cases (decl_attrs st) (cur_after Public body)) as [[Hnil ->]|Hin].
     + right. split; auto.
       assert (Hempty : forall p, ~ In p (explicit_specs n body)).
       { intros p X.
-        apply (EX p Bn RB) in X as [X|(st0 & I0 & D0 & A0)]; [exact (Hno p X)|].
-        rewrite Hb in I0. apply in_app_iff in I0 as [I0|[<-|I0]].
-        * rewrite (Hpre st0 I0) in D0. discriminate.
-        * rewrite Hnil in A0. contradiction.
-        * rewrite (Hpost st0 I0) in D0. discriminate. }
+        apply (EX p) in X as [X|(st0 & I0 & D0 & A0)]; [exact (Hno p X)|].
+        pose proof (decl_attrs_carries _ _ A0) as C0.
+        destruct (kind_carries (e_kind e)) eqn:KC.
+        - pose proof (decl_name_carries _ _ _ Hd KC) as Cs.
+          assert (st0 = st).
+          { destruct (sstmt_eq_dec st0 st) as [E|N]; auto. exfalso.
+            assert (2 <= count_attr_decls n body); [|lia].
+            apply (cnt_two _ body st0 st); auto; apply andb_true_iff; auto. }
+          subst st0. rewrite Hnil in A0. contradiction.
+        - assert (1 <= count_attr_decls n body); [|lia].
+          apply (cnt_pos _ body st0 I0). apply andb_true_iff; auto. }
       clear EX. destruct (explicit_specs n body) as [|p l]; auto. exfalso. apply (Hempty p). now left.
-    + left. apply (EX _ Bn RB). right. exists st. auto.
-  - left. apply (EX _ Bn RB). left. exact Hin.
+    + left. apply (EX _). right. exists st. auto.
+  - left. apply (EX _). left. exact Hin.
 Qed.
 
 (* the module case of the partial theorem, for entities of the main list *)
 Lemma module_top_correct body e :
   In e (top_of ScModule body) ->
   defaults_valid body = true -> consistent (e_name e) body = true ->
-  late_default (e_name e) body = false -> protected_given (e_name e) body = false ->
-  declared_twice (e_name e) body = false -> names_blank_free body = true ->
+  protected_given (e_name e) body = false -> attr_twin (e_kind e) (e_name e) body = false ->
   e_perm e = attr_access (explicit_specs (e_name e) body) (default_access body)
   /\ e_perm e <> Protected.
 Proof.
-  intros I V C RL RP RD RB.
+  intros I V C RP RD.
   unfold protected_given in RP. apply has_false_In in RP.
-  destruct (top_value_member body e I RD RB (or_intror RP))
-    as (pre & st & post & Hb & Hd & Hpre & Hpost & [Hmem|[Hnil Hcur]]).
+  destruct (top_value_member body e I RD (or_intror RP)) as [Hmem|[Hnil Hcur]].
   - split.
     + symmetry. apply attr_access_of_member; auto.
     + intros X. apply RP. now rewrite <- X.
-  - assert (Hdecl : declares (e_name e) st = true) by (rewrite declares_decl_name, Hd; apply str_eqb_refl).
-    rewrite Hnil. unfold attr_access. simpl. rewrite Hcur.
-    rewrite Hb, late_default_split in RL; auto. rewrite Hb in V.
-    rewrite (cur_is_default pre st post V (decl_not_default _ _ _ Hd) RL), <- Hb.
+  - rewrite Hnil. unfold attr_access. simpl. rewrite Hcur, (final_default body V).
     split; auto. unfold default_access. destruct (existsb is_bare_private body); discriminate.
 Qed.
 
 (* ------------------------------------------------------------------ submodules *)
+
+Lemma no_access_cur body c : no_access_syntax body = true -> cur_after c body = c.
+Proof.
+  revert c. induction body as [|st r IH]; simpl; intros c H; auto.
+  apply andb_true_iff in H as [H1 H2]. destruct st; try discriminate; apply IH; auto.
+Qed.
 
 Lemma no_access_scan body :
   no_access_syntax body = true ->
@@ -734,11 +637,11 @@ Proof.
   induction body as [|st r IH]; simpl; intros H; [split; auto; intros e []|].
   apply andb_true_iff in H as [H1 H2]. destruct (IH H2) as [IA IE].
   destruct st as [p|p ns|pa m ats|m ats tb|k m| |f m]; try discriminate; simpl; split; auto.
-  - destruct ats; [|discriminate]. intros e [<-|I] M; auto.
-  - destruct ats; [|discriminate]. intros e [<-|I] M; auto.
+  - destruct ats; [|discriminate]. intros e [<-|I] M; auto. simpl. now apply no_access_cur.
+  - destruct ats; [|discriminate]. intros e [<-|I] M; [simpl; now apply no_access_cur|].
     apply in_app_iff in I as [I|I]; auto. apply tchildren_not_modlevel in I. congruence.
-  - intros e [<-|I] M; auto.
-  - intros e [<-|I] M; auto.
+  - intros e [<-|I] M; auto. simpl. now apply no_access_cur.
+  - intros e [<-|I] M; auto. simpl. now apply no_access_cur.
 Qed.
 
 Lemma submodule_top_private body e :
@@ -747,14 +650,8 @@ Proof.
   intros N I. destruct (no_access_scan body N) as [HA HE].
   unfold top_of in I. rewrite HA in I. simpl initial_perm in I.
   assert (HL : forall x, In x (apply_attrs (ordered (scan_ents Private body)) []) -> e_perm x = Private).
-  { intros x Ix. apply apply_attrs_in in Ix as (l1 & e0 & l2 & Hs & ->).
-    assert (remove_keys l1 [] = []) as ->.
-    { clear. induction l1 as [|y l IH]; auto. }
-    simpl. apply HE.
-    - assert (In e0 (ordered (scan_ents Private body))) as X by (rewrite Hs; apply in_elt).
-      now apply in_ordered in X.
-    - assert (In e0 (ordered (scan_ents Private body))) as X by (rewrite Hs; apply in_elt).
-      now apply in_ordered in X. }
+  { intros x Ix. apply apply_attrs_in in Ix as (e0 & I0 & ->).
+    apply in_ordered in I0 as [I0 M]. simpl. now apply HE. }
   apply fix_constructors_in in I as (e1 & I1 & _ & [->|(t & It & _ & _ & _ & ->)]); auto.
 Qed.
 
@@ -763,36 +660,40 @@ Qed.
 (* `protected` is recorded: a variable whose only explicit keyword is PROTECTED *)
 Theorem protected_recorded : forall body out e,
   ford_perms ScModule body = Some out -> In e out -> e_kind e = KVar ->
-  declared_twice (e_name e) body = false -> names_blank_free body = true ->
+  attr_twin KVar (e_name e) body = false ->
   protected_given (e_name e) body = true ->
   has Public (explicit_specs (e_name e) body) = false ->
   has Private (explicit_specs (e_name e) body) = false ->
   e_perm e = Protected /\
   (default_access body = Public -> e_perm e = fortran_perm ScModule body (e_kind e) (e_name e)).
 Proof.
-  intros body out e F I K RD RB PG NPub NPriv.
+  intros body out e F I K RD PG NPub NPriv.
   assert (T : top_level e = true) by (unfold top_level; now rewrite K).
-  destruct (out_top_level ScModule body out e F I T) as (e1 & I1 & _ & _ & _ & [->|[X _]]); [|congruence].
+  destruct (out_top_level ScModule body out e F I T) as (e1 & I1 & _ & _ & _ & _ & [->|[X _]]); [|congruence].
   assert (EP : e_perm e = Protected).
-  { destruct (top_value_member body e I1 RD RB (or_introl K))
-      as (pre & st & post & _ & _ & _ & _ & [Hmem|[Hnil _]]).
+  { rewrite <- K in RD.
+    destruct (top_value_member body e I1 RD (or_introl K)) as [Hmem|[Hnil _]].
     - apply has_false_In in NPub, NPriv. destruct (e_perm e); tauto.
     - unfold protected_given in PG. rewrite Hnil in PG. discriminate. }
   split; auto. intros D. simpl. unfold attr_access. rewrite NPriv, NPub, D, K.
   unfold protected_given in PG. rewrite PG. exact EP.
 Qed.
 
+Lemma attr_twin_kind k1 k2 n body :
+  kind_carries k1 = kind_carries k2 -> attr_twin k1 n body = attr_twin k2 n body.
+Proof. unfold attr_twin. now intros ->. Qed.
+
 Theorem partial : forall sk body out e,
   ford_perms sk body = Some out -> In e out -> top_level e = true ->
   valid_for sk body (e_kind e) (e_name e) = true ->
-  region body (e_name e) = 0 ->
+  region body (e_kind e) (e_name e) = 0 ->
   e_perm e = fortran_perm sk body (e_kind e) (e_name e).
 Proof.
   intros sk body out e F I T V R.
   destruct sk.
   2:{ destruct (out_top_level ScSubmodule body out e F I T) as (e1 & I1 & _ & Ep & _).
       rewrite <- Ep. simpl in V |- *. now apply (submodule_top_private body). }
-  apply region_zero in R as (RL & RC & RD & RB).
+  apply region_zero in R as (RC & RD).
   simpl in V. apply andb_true_iff in V as [V V3]. apply andb_true_iff in V as [V1 V2].
   destruct (protected_given (e_name e) body) eqn:PG.
   - (* PROTECTED and nothing else, public default: the variable is recorded as protected *)
@@ -801,10 +702,11 @@ Proof.
     assert (K : e_kind e = KVar) by (destruct (e_kind e); try discriminate; reflexivity).
     assert (D : default_access body = Public).
     { unfold default_access in *. destruct (existsb is_bare_private body); [discriminate|reflexivity]. }
-    exact (proj2 (protected_recorded body out e F I K RD RB PG RC1 RC2) D).
-  - destruct (out_top_level ScModule body out e F I T) as (e1 & I1 & En & Ep & Ev & _).
-    rewrite <- Ep. rewrite <- En in V2, RL, RD, PG.
-    destruct (module_top_correct body e1 I1 V1 V2 RL PG RD RB) as [H1 H2].
+    rewrite K in RD.
+    exact (proj2 (protected_recorded body out e F I K RD PG RC1 RC2) D).
+  - destruct (out_top_level ScModule body out e F I T) as (e1 & I1 & En & Ep & Ev & Ec & _).
+    rewrite <- Ep. rewrite <- En in V2, PG, RD. rewrite <- (attr_twin_kind _ _ _ _ Ec) in RD.
+    destruct (module_top_correct body e1 I1 V1 V2 PG RD) as [H1 H2].
     simpl. unfold protected_given in PG. rewrite <- En, PG, andb_false_r, <- H1.
     destruct (e_perm e1); congruence.
 Qed.
@@ -840,6 +742,232 @@ Proof.
       destruct K as [-> | ->]; simpl; auto.
     + apply ifprocs_in in I as (j & _ & _ & ->). simpl in K. destruct K; discriminate.
     + unfold of_class in I. apply filter_In in I as [_ C]. destruct K as [K|K]; rewrite K in C; discriminate.
+Qed.
+
+(* ------------------------------------------------------------------ the constructor interface of a type *)
+
+(* "may be the entry of all_procs under k", and "is a type called k" *)
+Definition proc_named (k : str) (e : ent) : bool := in_all_procs e && str_eqb k (pkey (e_name e)).
+Definition type_named (k : str) (e : ent) : bool := ekind_eqb (e_kind e) KType && str_eqb k (pkey (e_name e)).
+
+Lemma ekind_eq_dec (a b : ekind) : {a = b} + {a <> b}.
+Proof. decide equality. Defined.
+Lemma ent_eq_dec (a b : ent) : {a = b} + {a <> b}.
+Proof. decide equality; try apply perm_eq_dec; try apply str_eq_dec; apply ekind_eq_dec. Defined.
+
+Lemma cnt_app {A} (P : A -> bool) a b : cnt P (a ++ b) = cnt P a + cnt P b.
+Proof. unfold cnt. now rewrite filter_app, app_length. Qed.
+
+Lemma cnt_rev {A} (P : A -> bool) l : cnt P (rev l) = cnt P l.
+Proof.
+  induction l as [|x l IH]; [reflexivity|]. simpl. rewrite cnt_app, IH, !cnt_cons.
+  unfold cnt at 2. simpl. lia.
+Qed.
+
+Lemma cnt_filter {A} (P Q : A -> bool) l : cnt P (filter Q l) = cnt (fun x => Q x && P x) l.
+Proof.
+  induction l as [|x l IH]; [reflexivity|]. simpl. rewrite (cnt_cons (fun x => Q x && P x)).
+  destruct (Q x); simpl; [now rewrite cnt_cons, IH | exact IH].
+Qed.
+
+Lemma cnt_ext {A} (P Q : A -> bool) l : (forall x, P x = Q x) -> cnt P l = cnt Q l.
+Proof. intros H. unfold cnt. f_equal. now apply filter_ext. Qed.
+
+Lemma cnt_ident_ext (P : ent -> bool) a b :
+  (forall x y, ident x = ident y -> P x = P y) -> map ident a = map ident b -> cnt P a = cnt P b.
+Proof.
+  intros HP. revert b. induction a as [|x a IH]; intros [|y b] E; simpl in E; try discriminate; auto.
+  injection E as E1 E2 E3 E. rewrite !cnt_cons, (IH b E).
+  rewrite (HP x y); auto. unfold ident. now rewrite E1, E2, E3.
+Qed.
+
+Lemma set_first_ident k p es : map ident (set_first k p es) = map ident es.
+Proof.
+  induction es as [|x r IH]; [reflexivity|]. simpl.
+  destruct (in_all_procs x && str_eqb k (pkey (e_name x))); simpl; [reflexivity | now rewrite IH].
+Qed.
+
+Lemma set_last_ident k p es : map ident (set_last k p es) = map ident es.
+Proof. unfold set_last. now rewrite map_rev, set_first_ident, map_rev, rev_involutive. Qed.
+
+Lemma proc_named_ident k x y : ident x = ident y -> proc_named k x = proc_named k y.
+Proof. unfold ident, proc_named, in_all_procs. intros H. injection H as -> _ ->. reflexivity. Qed.
+
+(* when one entity answers to k, that one gets the permission *)
+Lemma set_first_unique k p es :
+  cnt (proc_named k) es = 1 -> forall x, In x (set_first k p es) -> proc_named k x = true -> e_perm x = p.
+Proof.
+  induction es as [|y r IH]; intros C x I Px; [discriminate|].
+  rewrite cnt_cons in C. simpl in I. fold (proc_named k y) in I.
+  destruct (proc_named k y) eqn:Py.
+  - destruct I as [<-|I]; [reflexivity|].
+    assert (Z : cnt (proc_named k) r = 0) by lia.
+    rewrite (cnt_zero _ _ Z x I) in Px. discriminate.
+  - destruct I as [<-|I]; [congruence|]. apply IH; auto.
+Qed.
+
+Lemma set_last_unique k p es :
+  cnt (proc_named k) es = 1 -> forall x, In x (set_last k p es) -> proc_named k x = true -> e_perm x = p.
+Proof.
+  unfold set_last. intros C x I Px. apply in_rev in I.
+  apply (set_first_unique k p (rev es)); auto. now rewrite cnt_rev.
+Qed.
+
+(* a step for another name leaves the permissions under k alone *)
+Lemma set_last_other k k' p es P :
+  k <> k' -> (forall x, In x es -> proc_named k x = true -> e_perm x = P) ->
+  forall x, In x (set_last k' p es) -> proc_named k x = true -> e_perm x = P.
+Proof.
+  intros N H x I Px. apply set_last_in in I as [I|(e & Ie & A & K & ->)]; [auto|].
+  exfalso. unfold proc_named in Px. simpl in Px. apply andb_true_iff in Px as [_ Px].
+  apply str_eqb_eq in Px. congruence.
+Qed.
+
+Definition ctor_step := fun (acc : list ent) (t : ent) => set_last (pkey (e_name t)) (e_perm t) acc.
+
+Lemma fold_constructors_other k P ts :
+  (forall t, In t ts -> pkey (e_name t) <> k) ->
+  forall acc, (forall x, In x acc -> proc_named k x = true -> e_perm x = P) ->
+  forall x, In x (fold_left ctor_step ts acc) -> proc_named k x = true -> e_perm x = P.
+Proof.
+  induction ts as [|t ts IH]; intros Ht acc Hacc x I Px; simpl in I; [auto|].
+  apply (IH (fun t' It' => Ht t' (or_intror It')) (ctor_step acc t)); auto.
+  unfold ctor_step. apply set_last_other; auto.
+  intros E. apply (Ht t (or_introl eq_refl)). now symmetry.
+Qed.
+
+Lemma fold_constructors_sets k P ts :
+  cnt (fun t => str_eqb k (pkey (e_name t))) ts = 1 ->
+  (forall t, In t ts -> pkey (e_name t) = k -> e_perm t = P) ->
+  forall acc, cnt (proc_named k) acc = 1 ->
+  forall x, In x (fold_left ctor_step ts acc) -> proc_named k x = true -> e_perm x = P.
+Proof.
+  induction ts as [|t ts IH]; intros C HP acc Cacc x I Px; [discriminate|].
+  rewrite cnt_cons in C. simpl in I.
+  destruct (str_eqb k (pkey (e_name t))) eqn:E.
+  - apply str_eqb_eq in E.
+    assert (Z : cnt (fun t => str_eqb k (pkey (e_name t))) ts = 0) by lia.
+    apply (fold_constructors_other k P ts) with (acc := ctor_step acc t); auto.
+    + intros t' It' E'. pose proof (cnt_zero _ _ Z t' It') as F. simpl in F.
+      rewrite E', str_eqb_refl in F. discriminate.
+    + intros y Iy Py. rewrite <- (HP t (or_introl eq_refl) (eq_sym E)).
+      unfold ctor_step in Iy. rewrite <- E in Iy. apply (set_last_unique k _ acc); auto.
+  - apply (IH C (fun t' It' => HP t' (or_intror It')) (ctor_step acc t)); auto.
+    rewrite (cnt_ident_ext (proc_named k) _ acc); auto.
+    + intros a b. apply proc_named_ident.
+    + apply set_last_ident.
+Qed.
+
+(* types keep their permission in the constructor step *)
+Lemma fix_constructors_type es t :
+  In t (fix_constructors es) -> e_kind t = KType -> In t es.
+Proof.
+  intros I K. apply fix_constructors_in in I as (e & Ie & Eid & [->|(t' & _ & _ & A & _)]); auto.
+  unfold ident in Eid. injection Eid as E1 _ _. unfold in_all_procs in A. rewrite <- E1, K in A. discriminate.
+Qed.
+
+Lemma klass_type e : Nat.eqb (klass (e_kind e)) 2 = ekind_eqb (e_kind e) KType.
+Proof. now destruct (e_kind e). Qed.
+
+(* FortranType.correlate: the only procedure / interface that carries the name of a (single) type ends
+   with the permission of that type *)
+Lemma fix_constructors_follow es g t :
+  In g (fix_constructors es) -> In t (fix_constructors es) -> e_kind t = KType ->
+  proc_named (pkey (e_name t)) g = true ->
+  cnt (proc_named (pkey (e_name t))) es = 1 -> cnt (type_named (pkey (e_name t))) es = 1 ->
+  e_perm g = e_perm t.
+Proof.
+  intros Ig It Kt Pg Cg Ct. set (k := pkey (e_name t)) in *.
+  pose proof (fix_constructors_type es t It Kt) as It0.
+  unfold fix_constructors in Ig. fold ctor_step in Ig.
+  apply (fold_constructors_sets k (e_perm t) (of_class 2 es)) with (acc := es) (x := g); auto.
+  - assert (cnt (fun t0 => str_eqb k (pkey (e_name t0))) (of_class 2 es) = cnt (type_named k) es) as ->;
+      [|exact Ct].
+    unfold of_class. rewrite cnt_filter. apply cnt_ext. intros x.
+    unfold type_named. cbv beta. now rewrite klass_type.
+  - intros t' It' E'. unfold of_class in It'. apply filter_In in It' as [It' K'].
+    rewrite klass_type in K'.
+    destruct (ent_eq_dec t' t) as [->|N]; auto. exfalso.
+    assert (2 <= cnt (type_named k) es); [|lia].
+    apply (cnt_two _ es t' t); auto; unfold type_named.
+    + rewrite K', E'. apply str_eqb_refl.
+    + rewrite Kt. simpl. apply str_eqb_refl.
+Qed.
+
+Lemma fix_constructors_ident es : map ident (fix_constructors es) = map ident es.
+Proof.
+  unfold fix_constructors. generalize (of_class 2 es) as ts. intros ts. generalize es as acc.
+  induction ts as [|t ts IH]; intros acc; [reflexivity|]. simpl. now rewrite IH, set_last_ident.
+Qed.
+
+Lemma type_named_ident k x y : ident x = ident y -> type_named k x = type_named k y.
+Proof. unfold ident, type_named. intros H. injection H as -> _ ->. reflexivity. Qed.
+
+(* counting over FORD's output = counting over the main list *)
+Lemma cnt_out sk body out (P : ent -> bool) :
+  ford_perms sk body = Some out -> (forall x, modlevel x = false -> P x = false) ->
+  (forall x y, ident x = ident y -> P x = P y) ->
+  cnt P out = cnt P (apply_attrs (ordered (scan_ents (initial_perm sk) body)) (scan_attrs body)).
+Proof.
+  intros F HP HI. rewrite (ford_perms_some _ _ _ F), !cnt_app.
+  assert (Z1 : cnt P (ifprocs (top_of sk body)) = 0).
+  { destruct (cnt P (ifprocs (top_of sk body))) eqn:E; auto. exfalso.
+    assert (exists x, In x (ifprocs (top_of sk body)) /\ P x = true) as (x & Ix & Px).
+    { unfold cnt in E. destruct (filter P (ifprocs (top_of sk body))) as [|x l] eqn:Fl; [discriminate|].
+      exists x. apply filter_In. rewrite Fl. now left. }
+    apply ifprocs_in in Ix as (i & _ & _ & ->). rewrite HP in Px; [discriminate|reflexivity]. }
+  assert (Z2 : cnt P (of_class 6 (scan_ents (initial_perm sk) body)) = 0).
+  { destruct (cnt P (of_class 6 (scan_ents (initial_perm sk) body))) eqn:E; auto. exfalso.
+    assert (exists x, In x (of_class 6 (scan_ents (initial_perm sk) body)) /\ P x = true) as (x & Ix & Px).
+    { unfold cnt in E. destruct (filter P (of_class 6 (scan_ents (initial_perm sk) body))) as [|x l] eqn:Fl; [discriminate|].
+      exists x. apply filter_In. rewrite Fl. now left. }
+    unfold of_class in Ix. apply filter_In in Ix as [_ K]. apply Nat.eqb_eq in K.
+    rewrite HP in Px; [discriminate|]. unfold modlevel. now rewrite K. }
+  rewrite Z1, Z2, !Nat.add_0_r. unfold top_of.
+  apply cnt_ident_ext; auto. apply fix_constructors_ident.
+Qed.
+
+(* C04_constructor: in FORD's output, the one procedure or interface named after a (single) derived type
+   has the type's permission *)
+Theorem constructor_follows_type : forall sk body out g t,
+  ford_perms sk body = Some out -> In g out -> In t out -> e_kind t = KType ->
+  proc_named (pkey (e_name t)) g = true ->
+  cnt (proc_named (pkey (e_name t))) out = 1 -> cnt (type_named (pkey (e_name t))) out = 1 ->
+  e_perm g = e_perm t.
+Proof.
+  intros sk body out g t F Ig It Kt Pg Cg Ct.
+  assert (ML : forall k x, modlevel x = false -> proc_named k x = false).
+  { intros k x M. unfold proc_named, in_all_procs. unfold modlevel in M. apply Nat.ltb_ge in M.
+    destruct (klass (e_kind x)) as [|[|[|[|[|[|n]]]]]]; try lia; reflexivity. }
+  assert (MT : forall k x, modlevel x = false -> type_named k x = false).
+  { intros k x M. unfold type_named. unfold modlevel in M. destruct (e_kind x); try reflexivity; discriminate. }
+  rewrite (cnt_out sk body out _ F (ML _) (fun x y => proc_named_ident _ x y)) in Cg.
+  rewrite (cnt_out sk body out _ F (MT _) (fun x y => type_named_ident _ x y)) in Ct.
+  assert (top : forall x, In x out -> modlevel x = true -> In x (top_of sk body)).
+  { intros x Ix M. rewrite (ford_perms_some _ _ _ F) in Ix. apply in_app_iff in Ix as [Ix|Ix]; auto.
+    apply in_app_iff in Ix as [Ix|Ix].
+    - apply ifprocs_in in Ix as (i & _ & _ & ->). discriminate.
+    - unfold of_class in Ix. apply filter_In in Ix as [_ K]. apply Nat.eqb_eq in K.
+      unfold modlevel in M. rewrite K in M. discriminate. }
+  apply (fix_constructors_follow (apply_attrs (ordered (scan_ents (initial_perm sk) body)) (scan_attrs body)) g t);
+    auto; fold (top_of sk body).
+  - apply top; auto. destruct (modlevel g) eqn:M; auto. rewrite (ML _ g M) in Pg. discriminate.
+  - apply top; auto. unfold modlevel. now rewrite Kt.
+Qed.
+
+(* the Spec gives one answer per identifier: names equal up to case and blanks, kinds alike *)
+Lemma fortran_perm_same_id sk body k1 k2 n1 n2 :
+  key n1 = key n2 -> is_variable k1 = is_variable k2 ->
+  fortran_perm sk body k1 n1 = fortran_perm sk body k2 n2.
+Proof.
+  intros E V. destruct sk; [|reflexivity]. unfold fortran_perm. rewrite V.
+  assert (X : explicit_specs n1 body = explicit_specs n2 body).
+  { induction body as [|st r IH]; [reflexivity|].
+    assert (S : forall m, same_id n1 m = same_id n2 m) by (intros m; unfold same_id, canon; fold (key n1) (key n2); now rewrite E).
+    assert (EX : forall ns, existsb (same_id n1) ns = existsb (same_id n2) ns).
+    { induction ns as [|m ms IHm]; [reflexivity|]. simpl. now rewrite S, IHm. }
+    destruct st; simpl; rewrite ?IH, ?S, ?EX; reflexivity. }
+  now rewrite X.
 Qed.
 
 (* ------------------------------------------------------------------ derived-type bodies *)
@@ -992,27 +1120,13 @@ Proof. intros sk body. unfold ford_perms. destruct (struct_ok false body); split
 
 (* ------------------------------------------------------------------ refutations (witnesses replayed on FORD) *)
 
-Definition w_late : list sstmt := [SVar false (s "x") []; SType (s "t") [] [TComp (s "c") []]; SDefault Private].
 Definition w_prot_private : list sstmt := [SDefault Private; SVar false (s "y") [Protected]].
 Definition w_prot_lost : list sstmt := [SVar false (s "w") [Protected]; SAccess Public [s "w"]].
-Definition w_repeated : list sstmt :=
-  [SDefault Private; SAccess Public [s "gen"]; SIface IGeneric (s "gen"); SIface IGeneric (s "gen");
-   SContains; SProc false (s "a"); SProc false (s "b")].
-Definition w_spelling : list sstmt :=
-  [SDefault Private; SAccess Public [s "operator(+)"]; SIface IOperator (s "operator (+)");
-   SContains; SProc true (s "f")].
 
 Definition refutes (body : list sstmt) (e : ent) (r : nat) : Prop :=
   exists out, ford_perms ScModule body = Some out /\ In e out /\ top_level e = true /\
-    valid_for ScModule body (e_kind e) (e_name e) = true /\ region body (e_name e) = r /\
+    valid_for ScModule body (e_kind e) (e_name e) = true /\ region body (e_kind e) (e_name e) = r /\
     e_perm e <> fortran_perm ScModule body (e_kind e) (e_name e).
-
-Lemma refuted_late_default :
-  refutes w_late (mk_ent KVar [] (s "x") Public) 1 /\ refutes w_late (mk_ent KType [] (s "t") Public) 1.
-Proof.
-  split; eexists; (split; [vm_compute; reflexivity|]); (split; [simpl; tauto|]);
-    repeat split; try (vm_compute; reflexivity); vm_compute; discriminate.
-Qed.
 
 Lemma refuted_protected_private : refutes w_prot_private (mk_ent KVar [] (s "y") Protected) 2.
 Proof.
@@ -1026,38 +1140,58 @@ Proof.
     repeat split; try (vm_compute; reflexivity); vm_compute; discriminate.
 Qed.
 
-Lemma refuted_repeated_generic : refutes w_repeated (mk_ent KGeneric [] (s "gen") Private) 4.
-Proof.
-  eexists; (split; [vm_compute; reflexivity|]); (split; [simpl; tauto|]);
-    repeat split; try (vm_compute; reflexivity); vm_compute; discriminate.
-Qed.
-
-Lemma refuted_operator_spelling : refutes w_spelling (mk_ent KOperator [] (s "operator (+)") Private) 8.
-Proof.
-  eexists; (split; [vm_compute; reflexivity|]); (split; [simpl; tauto|]);
-    repeat split; try (vm_compute; reflexivity); vm_compute; discriminate.
-Qed.
-
 Lemma statement_refuted : ~ full_statement.
 Proof.
-  intros H. destruct refuted_late_default as [(out & F & I & T & V & _ & N) _].
-  exact (N (H ScModule w_late out _ F I T V)).
+  intros H. destruct refuted_protected_private as (out & F & I & T & V & _ & N).
+  exact (N (H ScModule w_prot_private out _ F I T V)).
 Qed.
+
+(* ------------------------------------------------------------------ former witnesses (repaired defects) *)
+(* kept as regression inputs: the harness replays them on the implementation on every run *)
+
+Definition w_late : list sstmt := [SVar false (s "x") []; SType (s "t") [] [TComp (s "c") []]; SDefault Private].
+Definition w_repeated : list sstmt :=
+  [SDefault Private; SAccess Public [s "gen"]; SIface IGeneric (s "gen"); SIface IGeneric (s "gen");
+   SContains; SProc false (s "a"); SProc false (s "b")].
+Definition w_spelling : list sstmt :=
+  [SDefault Private; SAccess Public [s "operator(+)"]; SIface IOperator (s "operator (+)");
+   SContains; SProc true (s "f")].
+
+Definition agrees (body : list sstmt) (e : ent) : Prop :=
+  exists out, ford_perms ScModule body = Some out /\ In e out /\
+    valid_for ScModule body (e_kind e) (e_name e) = true /\ region body (e_kind e) (e_name e) = 0 /\
+    e_perm e = fortran_perm ScModule body (e_kind e) (e_name e).
+
+Example fixed_late_default :
+  agrees w_late (mk_ent KVar [] (s "x") Private) /\ agrees w_late (mk_ent KType [] (s "t") Private).
+Proof. split; eexists; (split; [vm_compute; reflexivity|]); (split; [simpl; tauto|]); repeat split. Qed.
+
+Example fixed_repeated_generic :
+  exists out, ford_perms ScModule w_repeated = Some out /\
+    filter (fun e => ekind_eqb (e_kind e) KGeneric) out
+    = [mk_ent KGeneric [] (s "gen") Public; mk_ent KGeneric [] (s "gen") Public] /\
+    region w_repeated KGeneric (s "gen") = 0 /\ fortran_perm ScModule w_repeated KGeneric (s "gen") = Public.
+Proof. eexists. split; [vm_compute; reflexivity|]. repeat split. Qed.
+
+Example fixed_operator_spelling : agrees w_spelling (mk_ent KOperator [] (s "operator (+)") Public).
+Proof. eexists; (split; [vm_compute; reflexivity|]); (split; [simpl; tauto|]); repeat split. Qed.
 
 (* ------------------------------------------------------------------ non-vacuity *)
 
 Definition ex_body : list sstmt :=
-  [SDefault Private; SAccess Public [s "Alpha"; s "operator(+)"]; SVar false (s "alpha") [];
+  [SAccess Public [s "Alpha"; s "operator(+)"; s "gen"]; SVar false (s "alpha") [];
    SVar true (s "n") [Public]; SType (s "t") [Private] [TDefault Private; TComp (s "c") [Public]];
-   SIface IAbstract (s "ai"); SIface IOperator (s "operator(+)"); SAccess Private [s "AI"];
+   SIface IAbstract (s "ai"); SIface IOperator (s "operator (+)"); SAccess Private [s "AI"];
+   SIface IGeneric (s "gen"); SIface IGeneric (s "Gen"); SDefault Private;
    SContains; SProc true (s "f")].
 
 Example ex_partial :
   exists out, ford_perms ScModule ex_body = Some out /\
     Forall (fun e => top_level e = true -> valid_for ScModule ex_body (e_kind e) (e_name e) = true /\
-                     region ex_body (e_name e) = 0) out /\
+                     region ex_body (e_kind e) (e_name e) = 0) out /\
     In (mk_ent KVar [] (s "alpha") Public) out /\ In (mk_ent KIfProc [] (s "ai") Private) out /\
-    In (mk_ent KFun [] (s "f") Private) out /\ In (mk_ent KOperator [] (s "operator(+)") Public) out.
+    In (mk_ent KFun [] (s "f") Private) out /\ In (mk_ent KOperator [] (s "operator (+)") Public) out /\
+    In (mk_ent KGeneric [] (s "Gen") Public) out /\ In (mk_ent KType [] (s "t") Private) out.
 Proof.
   eexists. split; [vm_compute; reflexivity|]. split.
   - repeat constructor; vm_compute; intros; try discriminate; auto.
@@ -1069,7 +1203,7 @@ Definition ex_prot_body : list sstmt :=
 Example ex_protected_recorded :
   exists out, ford_perms ScModule ex_prot_body = Some out /\
     In (mk_ent KVar [] (s "z") Protected) out /\
-    declared_twice (s "z") ex_prot_body = false /\ names_blank_free ex_prot_body = true /\
+    attr_twin KVar (s "z") ex_prot_body = false /\
     protected_given (s "z") ex_prot_body = true /\
     has Public (explicit_specs (s "z") ex_prot_body) = false /\
     has Private (explicit_specs (s "z") ex_prot_body) = false /\ default_access ex_prot_body = Public.
